@@ -3,7 +3,7 @@
 From Coq Require Import String.
 From Coq Require Import List Ascii ZArith Bool Lia.
 From CGV Require Import Base.PyBase Base.PyVal Base.NxGraph Resolve.Bonding Resolve.GraphOps Resolve.Pipeline
-     Resolve.MapDefs Resolve.Witness Resolve.MapProofs.
+     Resolve.MapDefs Resolve.Witness Resolve.MapProofs Resolve.CopyProofs.
 Import ListNotations.
 Open Scope Z_scope.
 
@@ -44,27 +44,52 @@ Theorem C02_correspondence_fresh : forall off tgt t x, In (t, x) (correspondence
 Proof. exact correspondence_fresh. Qed.
 Theorem C02_correspondence_injective : forall off tgt, NoDup (map snd (correspondence off tgt)).
 Proof. exact correspondence_injective. Qed.
-(** frag_copy on the graph (partial: freshness/distinctness of the handed-out keys are hypotheses, see MapProofs) *)
-Theorem C02_frag_copy_partial : forall src tgt g corr, merge_graphs src tgt = Ok (g, corr) ->
-  NoDup (map (fun n => map_get corr (nk n)) tgt) ->
-  (forall n, In n tgt -> has_node src (map_get corr (nk n)) = false) ->
-  (forall u v d, In (u, v, d) (edges_data tgt) -> In u (node_keys tgt) /\ In v (node_keys tgt)) ->
+(** frag_copy on the graph: after merge_graphs every template atom has its copy at the fresh key
+    [correspondence t] carrying merge_node's attributes; old nodes keep key and attributes; for every
+    template with distinct node keys whose edges join its nodes *)
+Theorem C02_frag_copy : forall src tgt g corr, merge_graphs src tgt = Ok (g, corr) -> wf_template tgt ->
   exists off fo, merge_offsets src = Ok (off, fo) /\ corr = correspondence off tgt /\
     forall n, In n tgt -> exists a', merge_node (off + 1) fo (na n) = Ok a' /\ node_attrs g (map_get corr (nk n)) = Ok a'.
-Proof. exact frag_copy_partial. Qed.
-(** non-vacuity of the hypotheses of C02_frag_copy_partial: instantiating #B after #A *)
-Example C02_frag_copy_nonvacuous :
-  exists g1 c1 g2 c2 tA tB, fd_get (S "A") fd_AB = Some tA /\ fd_get (S "B") fd_AB = Some tB /\
-    merge_graphs gempty tA = Ok (g1, c1) /\ merge_graphs g1 tB = Ok (g2, c2) /\
-    NoDup (map (fun n => map_get c2 (nk n)) tB) /\ forallb (fun n => negb (has_node g1 (map_get c2 (nk n)))) tB = true.
+Proof. exact frag_copy. Qed.
+Theorem C02_merge_keeps_old : forall src tgt g corr, merge_graphs src tgt = Ok (g, corr) -> wf_template tgt ->
+  node_keys g = (node_keys src ++ map snd corr)%list /\
+  (forall k, In k (node_keys src) -> node_attrs g k = node_attrs src k).
+Proof. exact merge_graphs_keys. Qed.
+(** the instantiation step of the repaired resolve_disconnected_molecule: the copy of template atom t under
+    coarse node mn records exactly [key of mn] and the mapping [(fragname, t)], everything else is the template's *)
+Theorem C02_disc_step_copy : forall fd mol fgs mn fv name frag mol2 fgs2,
+  aget (S "fragname") (na mn) = Some fv -> lookup_fragment fd fv = Some (name, frag) -> wf_template frag ->
+  disc_step fd (mol, fgs) mn = Ok (mol2, fgs2) ->
+  exists off fo, merge_offsets mol = Ok (off, fo) /\
+    forall n, In n frag -> exists a', merge_node (off + 1) fo (na n) = Ok a' /\
+      node_attrs mol2 (map_get (correspondence off frag) (nk n)) = Ok (stamped (nk mn) name (nk n) a').
+Proof. exact disc_step_copy. Qed.
+Theorem C02_stamped_fragid : forall ck name t a, aget (S "fragid") (stamped ck name t a) = Some (VList [VInt ck]).
+Proof. exact stamped_fragid. Qed.
+Theorem C02_stamped_mapping : forall ck name t a, aget (S "mapping") (stamped ck name t a) = Some (mapping_val name t).
+Proof. exact stamped_mapping. Qed.
+Theorem C02_stamped_other : forall ck name t a key, key <> S "fragid" -> key <> S "mapping" -> aget key (stamped ck name t a) = aget key a.
+Proof. exact stamped_other. Qed.
+(** every fine node of the disconnected molecule records exactly one key, the key of a coarse node WITH a
+    fragment - for virtual nodes at any position and arbitrary (distinct or not) coarse keys *)
+Theorem C02_fragid_is_coarse_key : forall fd meta mol fgs, wf_dict fd -> resolve_disconnected fd meta = Ok (mol, fgs) ->
+  fine_inv (flat_map (real_of fd) meta) mol.
+Proof. exact resolve_disconnected_inv. Qed.
+(** non-vacuity: the templates of the witness dictionary are well formed *)
+Example C02_wf_nonvacuous : exists tA tB, fd_get (S "A") fd_AB = Some tA /\ fd_get (S "B") fd_AB = Some tB /\ wf_template tA /\ wf_template tB.
 Proof.
-  do 6 eexists. split; [reflexivity|]. split; [reflexivity|]. split; [vm_compute; reflexivity|]. split; [vm_compute; reflexivity|].
-  split; [repeat constructor; cbn; tauto|reflexivity].
+  do 2 eexists. split; [reflexivity|]. split; [reflexivity|]. split; split.
+  - repeat constructor; cbn; intuition discriminate.
+  - intros u v d H. cbn in H. destruct H as [H|[]]. inversion H; subst. cbn. auto.
+  - repeat constructor; cbn; intuition discriminate.
+  - intros u v d H. cbn in H. contradiction.
 Qed.
 
+Print Assumptions C02_frag_copy.
+Print Assumptions C02_disc_step_copy.
+Print Assumptions C02_fragid_is_coarse_key.
 Print Assumptions C02_frag_exact.
 Print Assumptions C02_frag_cover.
 Print Assumptions C02_fragid_singleton.
 Print Assumptions C02_frag_copy_attrs.
 Print Assumptions C02_correspondence_injective.
-Print Assumptions C02_frag_copy_partial.
